@@ -316,3 +316,47 @@ Theorem C08_wire_monitor_accepts : forall pa a o tr,
   forall pre e post, tr = pre ++ e :: post -> ev_ok pa a o (ghost_of pre) e.
 Proof. exact history_new. Qed.
 Print Assumptions C08_wire_monitor_accepts.
+
+(* ====================================================================================================
+   C08: ORACLE SOUNDNESS -- the executable monitor DpOracle.c08_monitor, which ocaml/run_dp.ml runs on the
+   IMPLEMENTATION's transcripts, accepts every transcript of the MODEL.
+
+   Proofs/DpOracleSound.v.  `model_run s0 ins` is the model side of ocaml/run_dp.ml as a Coq function: for each
+   input DpRun.run_in (FdlApplication callbacks transmit_telegram / receive_reply / handle_timeout, a request
+   dropped by the FDL, the user calls request_diagnostics(), pi_q writes, enter_state(), take_last_events(),
+   add() DURING the history, and the environment steps), then DpRun.auto_take (take_last_events() after every
+   callback), then the observables DpRun.observe -- collected into the transcript type DpOracle.tstep the
+   monitors read.  A model panic ends the run (`= Ok (s', tr)`: every prefix of every execution up to a panic).
+   Hypotheses: `conf_ok c` = the configurations the monitors are run on / the generator produces:
+   cf_autotake, DpOracle.conf_sane (distinct addresses), DpOracle.conf_within_limits (frame format),
+   max_retry_limit >= 1 (the builder allows 1..15), own address 0..126, pre-placed peripherals in distinct
+   storage slots; `contract_ok c tr` = the FdlApplication contract (C15) exactly as run_dp.ml checks it before
+   running the monitors; `driver_ok` = the guards of the harness (harness/src/dp.rs): no ill-formed input
+   (OutBad), add(k) only for a peripheral that is not yet in the master and only between requests (op ADD<k>).
+   Any peripheral set, any storage layout, global control, time-outs, dropped requests, any reply telegram.
+   Consequence: on a transcript of the real crate that agrees with the model (0 divergences) a failure code of
+   this monitor is never a false alarm of the monitor.
+   ==================================================================================================== *)
+From PB Require Import DpRun DpOracle DpOracleSound.
+
+Theorem C08_oracle_sound : forall c, conf_ok c -> forall s0 ins s' tr,
+  init_sys c = Ok s0 -> model_run s0 ins = Ok (s', tr) ->
+  contract_ok c tr = true -> driver_ok (sy_handles s0) tr = true ->
+  c08_monitor c tr = None.
+Proof. exact c08_oracle_sound. Qed.
+Print Assumptions C08_oracle_sound.
+
+(* non-vacuity: a computed 22-step history of a master with two peripherals (one added by add() during the
+   history), max_retry_limit = 1, meets all hypotheses; it contains a global control broadcast, an accepted
+   diagnostics reply (Online, completed cycle), a time-out with retransmission, a dropped request, user calls,
+   the Offline event after 1 + 1 transmissions, probes, a second completed cycle and a reply that is not
+   accepted *)
+Example C08_oracle_sound_hypotheses :
+  conf_ok ex_conf /\
+  exists s0 s' tr, init_sys ex_conf = Ok s0 /\ model_run s0 ex_ins = Ok (s', tr) /\
+    contract_ok ex_conf tr = true /\ driver_ok (sy_handles s0) tr = true /\ length tr = 22%nat /\
+    map step_event tr = [None; None; None; Some (7, EvOnline); None; None; None; None; None; None; None; None; None;
+                         Some (7, EvOffline); None; None; None; None; None; None; None; None] /\
+    map step_cc tr = [false; false; false; true; false; false; false; false; false; false; false; false; false; false;
+                      false; false; true; false; false; false; false; false].
+Proof. exact oracle_sound_example. Qed.
